@@ -362,6 +362,7 @@ func cmdRun(args []string) int {
 	// ------------------------------------------------------------ merge
 	merged := core.Result{Counters: map[string]int64{}, ViolationCounts: map[string]int64{}, Exhaustive: map[string]bool{}}
 	shapes := map[uint64]struct{}{}
+	shapeCats := map[string]map[uint64]struct{}{}
 	inconclusive := []string{}
 	sort.Slice(outcomes, func(i, j int) bool {
 		if outcomes[i].race != outcomes[j].race {
@@ -402,6 +403,14 @@ func cmdRun(args []string) int {
 		}
 		for _, h := range r.Shapes {
 			shapes[h] = struct{}{}
+		}
+		for cat, hs := range r.ShapeCats {
+			if shapeCats[cat] == nil {
+				shapeCats[cat] = map[uint64]struct{}{}
+			}
+			for _, h := range hs {
+				shapeCats[cat][h] = struct{}{}
+			}
 		}
 		for k, v := range r.Exhaustive {
 			if v {
@@ -535,15 +544,20 @@ func cmdRun(args []string) int {
 		samples = append(samples, "no sample recorded")
 	}
 	distinct := len(shapes)
+	byCat := map[string]int{}
+	for cat, hs := range shapeCats {
+		byCat[cat] = len(hs)
+	}
 	cov := map[string]interface{}{
-		"evaluations":         merged.Evaluations,
-		"distinct_nontrivial": distinct,
-		"rule":                p.Rule,
-		"samples":             samples,
-		"counters":            merged.Counters,
-		"workers":             nb,
-		"known_findings_seen": knownSeen,
-		"new_violation_keys":  newViol,
+		"distinct_by_category": byCat,
+		"evaluations":          merged.Evaluations,
+		"distinct_nontrivial":  distinct,
+		"rule":                 p.Rule,
+		"samples":              samples,
+		"counters":             merged.Counters,
+		"workers":              nb,
+		"known_findings_seen":  knownSeen,
+		"new_violation_keys":   newViol,
 	}
 	if exh {
 		cov["exhaustive"] = true
